@@ -1,0 +1,165 @@
+//go:build verif && linux
+// +build verif,linux
+
+package canary
+
+// Verification hooks (build tag "verif"): construct a Canary without raw sockets or
+// /proc files, feed it frames, and look at what it queued for transmission. Add-only;
+// nothing in the regular build refers to this file.
+
+import (
+	"context"
+	"math/rand"
+	"net"
+	"sync"
+	"syscall"
+	"time"
+
+	"github.com/glycerine/rbuf"
+	"github.com/honeytrap/honeytrap/listener/canary/ethernet"
+	"github.com/honeytrap/honeytrap/listener/canary/ipv4"
+	"github.com/honeytrap/honeytrap/pushers"
+)
+
+// VerifPeer is an ARP cache entry handed to VerifNew.
+type VerifPeer struct {
+	IP  net.IP
+	MAC net.HardwareAddr
+}
+
+// VerifRoute is a route table entry handed to VerifNew.
+type VerifRoute struct {
+	Destination net.IPNet
+	Gateway     net.IP
+}
+
+// VerifNew returns a Canary that listens on one end of an AF_UNIX datagram socketpair
+// instead of an AF_PACKET socket (frames written to the returned peer descriptor flow
+// through the regular Start loop), presenting the loopback interface (so that isMe holds
+// for 127.0.0.1) with the given ARP and route tables.
+func VerifNew(events pushers.Channel, peers []VerifPeer, routes []VerifRoute) (*Canary, int, error) {
+	epfd, err := syscall.EpollCreate1(0)
+	if err != nil {
+		return nil, -1, err
+	}
+
+	fds, err := syscall.Socketpair(syscall.AF_UNIX, syscall.SOCK_DGRAM, 0)
+	if err != nil {
+		return nil, -1, err
+	}
+
+	intf, err := net.InterfaceByName("lo")
+	if err != nil {
+		return nil, -1, err
+	}
+
+	lo := *intf
+	lo.HardwareAddr = net.HardwareAddr{0x02, 0, 0, 0, 0, 0x01}
+
+	ac := ARPCache{}
+	for _, p := range peers {
+		// the interface name has no descriptor: transmission is never triggered, the frames
+		// stay in the ring for VerifDrain
+		ac = append(ac, ARPEntry{IP: p.IP, HardwareAddress: p.MAC, Interface: "verif-none"})
+	}
+
+	rt := RouteTable{}
+	for _, r := range routes {
+		rt = append(rt, Route{Destination: r.Destination, Gateway: r.Gateway})
+	}
+
+	c := &Canary{
+		ac:                ac,
+		rt:                rt,
+		epfd:              epfd,
+		descriptors:       map[string]int32{lo.Name: int32(fds[0]), "verif-none": -1},
+		networkInterfaces: []net.Interface{lo},
+		r:                 rand.New(rand.NewSource(time.Now().UTC().UnixNano())),
+		knockChan:         make(chan interface{}, 100),
+		events:            events,
+		m:                 sync.Mutex{},
+		ch:                make(chan net.Conn),
+		buffer:            rbuf.NewFixedSizeRingBuf(65535),
+	}
+
+	if err := syscall.EpollCtl(epfd, syscall.EPOLL_CTL_ADD, fds[0], &syscall.EpollEvent{
+		Events: syscall.EPOLLIN | syscall.EPOLLERR,
+		Fd:     int32(fds[0]),
+	}); err != nil {
+		return nil, -1, err
+	}
+
+	return c, fds[1], nil
+}
+
+// VerifInject dispatches one frame synchronously, the way the receive loop of Start does.
+func (c *Canary) VerifInject(frame []byte) {
+	if len(frame) == 0 {
+	} else if eh, err := ethernet.Parse(frame); err != nil {
+	} else if eh.Type == EthernetTypeARP && c.doARP {
+		data := make([]byte, len(eh.Payload))
+		copy(data, eh.Payload[:])
+		c.handleARP(data)
+	} else if eh.Type == EthernetTypeIPv4 {
+		if iph, err := ipv4.Parse(eh.Payload[:]); err != nil {
+		} else {
+			data := make([]byte, len(iph.Payload))
+			copy(data, iph.Payload[:])
+
+			switch iph.Protocol {
+			case 1:
+				c.handleICMP(eh, iph, data)
+			case 6:
+				c.handleTCP(eh, iph, data)
+			case 17:
+				c.handleUDP(eh, iph, data)
+			}
+		}
+	}
+}
+
+// VerifDrain returns the frames queued for transmission since the last call.
+func (c *Canary) VerifDrain() [][]byte {
+	var out [][]byte
+
+	for {
+		hdr := [2]byte{}
+
+		n, err := c.buffer.Read(hdr[:])
+		if err != nil || n < 2 {
+			return out
+		}
+
+		frame := make([]byte, int(hdr[0])<<8+int(hdr[1]))
+		m, _ := c.buffer.Read(frame)
+		out = append(out, frame[:m])
+	}
+}
+
+// VerifKnockDetector runs the port-scan detector (Start does this for a regular Canary).
+func (c *Canary) VerifKnockDetector(ctx context.Context) {
+	go c.knockDetector(ctx)
+}
+
+// VerifFillStateTable occupies n slots of the connection table with fresh half-open
+// connections from distinct, unroutable peers.
+func (c *Canary) VerifFillStateTable(n int) {
+	for i := 0; i < n && i < len(c.stateTable); i++ {
+		st := c.NewState(net.IPv4(198, 18, byte(i>>16), byte(i>>8)), uint16(i), net.IPv4(127, 0, 0, 1), 9)
+		st.State = SocketSynReceived
+		c.stateTable[i] = st
+	}
+}
+
+// VerifStateCount returns the number of occupied slots of the connection table.
+func (c *Canary) VerifStateCount() int {
+	n := 0
+
+	for _, st := range c.stateTable {
+		if st != nil {
+			n++
+		}
+	}
+
+	return n
+}
